@@ -91,17 +91,21 @@ def declare_buffer(P, concurrent, ops, opts, name="B", kinds=None, optmask=None,
 
 
 def make_shape(concurrent, ops, opts, kinds=None, two_buffers=False, horizon=False):
+    """two_buffers: True = a second buffer of the same kind on the first two tasks (reversed operations);
+    'other_kind' = a second buffer of the OTHER kind accessed by the same tasks through the same operations"""
     name = f"{'concurrent' if concurrent else 'nonconcurrent'}/{ops}/{'+'.join(sorted(opts)) or 'none'}"
     if kinds:
         name += "/" + "+".join(kinds)
     if two_buffers:
-        name += "/two_buffers"
+        name += "/two_buffers" + ("_of_both_kinds" if two_buffers == "other_kind" else "")
 
     def build(P):
         pb, hv = new_problem(P, horizon)
         ctx = declare_buffer(P, concurrent, ops, opts, kinds=kinds)
         ctx.problem = pb
-        if two_buffers:
+        if two_buffers == "other_kind":
+            ctx.other = declare_buffer(P, not concurrent, ops, {"initial"}, name="C", tasks=list(ctx.tis))
+        elif two_buffers:
             # a second buffer of the same kind accessed by the same tasks (shared instants, other quantities)
             ctx.other = declare_buffer(P, concurrent, ops[::-1][:2], {"initial"}, name="C", tasks=ctx.tis[:2])
         return ctx
@@ -110,12 +114,12 @@ def make_shape(concurrent, ops, opts, kinds=None, two_buffers=False, horizon=Fal
         # concurrent buffers: the forall-defined quantity functions are replaced by the lambdas their
         # definitions describe (equisatisfiable: each definition determines its function), which keeps the
         # soundness queries quantifier-free
-        phi = buffer_witness(list(ctx.phi)) if ctx.concurrent else None
+        phi = buffer_witness(list(ctx.phi)) if (ctx.concurrent or two_buffers == "other_kind") else None
         obs = [Ob(f"{PROP}/{name}/{cn}", "sound", clause=cl, phi=phi) for cn, cl in buffer_clauses(ctx)]
         if two_buffers:
             o = ctx.other
             obs += [Ob(f"{PROP}/{name}/second_{cn}", "sound", clause=cl, phi=phi) for cn, cl in buffer_clauses(o)]
-        if ctx.concurrent and len(ctx.accesses) >= 2:
+        if ctx.concurrent and len(ctx.accesses) >= 2 and two_buffers != "other_kind":  # (the non-concurrent partner forbids the tie)
             obs.append(Ob(f"{PROP}/{name}/simultaneous_access_admitted", "custom", fn=_tie_admitted))
         return obs
 
@@ -158,6 +162,10 @@ def shapes(tier):
         out.append(make_shape(conc, "ul", {"initial", "final"}, two_buffers=True))
         out.append(make_shape(conc, "ull", {"initial", "upper"}, two_buffers=True))
         out.append(make_shape(conc, "ul", {"initial", "final"}, horizon=True))
+        # the same tasks access a buffer of each kind, declared in both orders
+        out.append(make_shape(conc, "uu", {"initial"}, two_buffers="other_kind"))
+        out.append(make_shape(conc, "ul", {"initial", "lower"}, two_buffers="other_kind"))
+        out.append(make_shape(conc, "uul", {"initial"}, two_buffers="other_kind"))
         # a task that takes from the buffer when it starts and gives back when it completes
         out.append(make_shape(conc, "uL", {"initial"}))
         out.append(make_shape(conc, "uLl", {"initial", "lower", "upper"}))
